@@ -1,2 +1,76 @@
+(* C18/Lemmas.v — proofs about the model of the logic blocks (Model.v). *)
 From Common Require Import Prelude.
+From Coq Require Import Permutation.
 From C18 Require Import Model.
+Open Scope Z_scope.
+
+(* ---------------------------------------------------------------------------------------------- *)
+(* automation: unfold the methods, split every test                                                *)
+
+Ltac unf :=
+  unfold step, do_count, do_setval, do_accrual_hit, do_sequence_hit, do_complete, do_reset, do_enable,
+    do_disable, timer_start, upd, accepted, goal_reached_by, completes, resets, ghost_step,
+    count_ev, set_enabled, set_completed, set_value, set_steps, set_ignore, set_tmo, set_win in *.
+
+Ltac split_ifs :=
+  repeat (cbn [fst snd enabled completed value steps ignore tmo win filter length app
+               is_hit_ev is_complete_ev negb andb orb] in *;
+          match goal with
+          | |- context [if ?b then _ else _] => destruct b eqn:?
+          | |- context [match ?x with KCounter => _ | KAccrual => _ | KSequence => _ end] => destruct x eqn:?
+          | |- context [let '(_, _) := ?x in _] => destruct x eqn:?
+          end).
+
+Ltac fin := cbn in *; try congruence; try lia; auto.
+
+(* ---------------------------------------------------------------------------------------------- *)
+(* exec plumbing                                                                                   *)
+
+Lemma exec_cons c s t o h :
+  exec c s ((t, o) :: h) =
+  (fst (exec c (fst (step c t s o)) h), snd (step c t s o) ++ snd (exec c (fst (step c t s o)) h)).
+Proof. cbn [exec]. destruct (step c t s o) as [s1 e1]. cbn [fst snd]. destruct (exec c s1 h) as [s2 e2]. reflexivity. Qed.
+
+Lemma exec_app c h1 : forall s h2,
+  exec c s (h1 ++ h2) =
+  (fst (exec c (fst (exec c s h1)) h2), snd (exec c s h1) ++ snd (exec c (fst (exec c s h1)) h2)).
+Proof.
+  induction h1 as [|[t o] h1 IH]; intros s h2.
+  - cbn. destruct (exec c s h2); reflexivity.
+  - rewrite <- app_comm_cons. rewrite !exec_cons. rewrite IH. cbn [fst snd]. rewrite app_assoc. reflexivity.
+Qed.
+
+Lemma count_ev_app p a b : count_ev p (a ++ b) = (count_ev p a + count_ev p b)%nat.
+Proof. unfold count_ev. rewrite filter_app, app_length. reflexivity. Qed.
+
+(* ---------------------------------------------------------------------------------------------- *)
+(* explicit form of complete()                                                                     *)
+
+Definition complete_state (c : cfg) (now : Z) (s : st) : st :=
+  mkSt (enabled s && negb (doc c)) (negb (roc c))
+       (if roc c then start_value c else value s)
+       (if roc c then start_steps c else steps s)
+       (ignore s)
+       (if doc c then None else if roc c && (0 <? timeout c) then Some (now + timeout c) else None)
+       (win s).
+
+Definition complete_events (c : cfg) (s : st) : list ev :=
+  EComplete ::
+  (if roc c then [EUpdated (start_value c) (start_steps c) (enabled s)] else []) ++
+  (if doc c then [EUpdated (if roc c then start_value c else value s)
+                           (if roc c then start_steps c else steps s) false] else []).
+
+Lemma do_complete_eq c now s :
+  do_complete c now s =
+  if completed s then (s, []) else (complete_state c now s, complete_events c s).
+Proof.
+  unfold do_complete, complete_state, complete_events, do_reset, do_disable, timer_start, upd,
+    set_enabled, set_completed, set_value, set_steps, set_tmo.
+  destruct (completed s); [reflexivity|].
+  destruct (roc c), (doc c), (0 <? timeout c); cbn; try rewrite andb_true_r; try rewrite andb_false_r; reflexivity.
+Qed.
+
+Lemma complete_events_counts c s :
+  count_ev is_hit_ev (complete_events c s) = 0%nat /\ count_ev is_complete_ev (complete_events c s) = 1%nat.
+Proof. unfold complete_events, count_ev. destruct (roc c), (doc c); cbn; auto. Qed.
+
